@@ -86,6 +86,11 @@ func (s *Service) OnSurvey(queryType string, payload []byte) ([]byte, bool) {
 		return nil, false
 	}
 
+	// Check if the SSID is properly constructed
+	if len(target) < 2 {
+		return nil, false
+	}
+
 	logging.LogTarget("query", queryType+" query received", target)
 
 	// Send back the response
